@@ -164,7 +164,7 @@ func reads(r core.StateReader) string {
 // baseTable renders the reads of a base reader as the driver's `base` table: entries that are
 // not found are left out; any other error makes the table unusable (reported by the caller).
 func baseTable(r core.StateReader) (string, error) {
-	var ch, no, st, cl, ca, c2 []string
+	var ch, no, st, cl, ca, c2, lu []string
 	chk := func(err error) error {
 		if err != nil && !errors.Is(err, db.ErrKeyNotFound) {
 			return err
@@ -186,6 +186,12 @@ func baseTable(r core.StateReader) (string, error) {
 		for _, k := range uniSlots {
 			if v, err := r.ContractStorage(af, fe(k)); err == nil {
 				st = append(st, fmt.Sprintf("%d:%d:%s", a, k, fv(&v)))
+			} else if e := chk(err); e != nil {
+				return "", e
+			}
+			addr := felt.Address(*af)
+			if n, err := r.ContractStorageLastUpdatedBlock(&addr, fe(k)); err == nil {
+				lu = append(lu, fmt.Sprintf("%d:%d:%d", a, k, n))
 			} else if e := chk(err); e != nil {
 				return "", e
 			}
@@ -224,8 +230,26 @@ func baseTable(r core.StateReader) (string, error) {
 	add("cl", cl)
 	add("ca", ca)
 	add("c2", c2)
+	add("lu", lu)
 	if len(secs) == 0 {
 		return "-", nil
 	}
 	return strings.Join(secs, "+"), nil
+}
+
+// readsLU renders ContractStorageLastUpdatedBlock over the universe.
+func readsLU(r core.StateReader) string {
+	var out []string
+	for _, a := range uniAddrs {
+		for _, k := range uniSlots {
+			addr := felt.Address(*fe(a))
+			n, err := r.ContractStorageLastUpdatedBlock(&addr, fe(k))
+			if err != nil {
+				out = append(out, fmt.Sprintf("%d:%d=%s", a, k, errTok(err)))
+			} else {
+				out = append(out, fmt.Sprintf("%d:%d=%d", a, k, n))
+			}
+		}
+	}
+	return "lu[" + strings.Join(out, ",") + "]"
 }
